@@ -12,6 +12,7 @@ import re
 import shutil
 
 from . import context
+from . import env as simenv
 from .kernel import SimCrash, SimKill
 
 _real = {}
@@ -90,9 +91,13 @@ class SimRaw(io.RawIOBase):
 class _ScandirWrap:
     def __init__(self, entries):
         self._e = entries
+        self._it = iter(entries)
 
     def __iter__(self):
-        return iter(self._e)
+        return self
+
+    def __next__(self):  # os.walk drives the scandir object with next()
+        return next(self._it)
 
     def __enter__(self):
         return self
@@ -215,6 +220,10 @@ def _open(file, mode="r", buffering=-1, encoding=None, errors=None, newline=None
     g = None
     if isinstance(mode, str) and ("w" in mode or "a" in mode or "x" in mode or "+" in mode):
         g = _fs_for(file) if not isinstance(file, int) else None
+    if isinstance(mode, str) and "b" not in mode and encoding in (None, "locale") and simenv.get("text_encoding"):
+        # text mode without an explicit encoding means "whatever this process's locale says": part of the environment
+        if g is not None or (not isinstance(file, int) and _fs_for(file) is not None):
+            encoding = simenv.get("text_encoding")
     if g is None:
         return _real["open"](file, mode, buffering, encoding, errors, newline, closefd, opener)
     fs, p, rel = g
